@@ -69,6 +69,7 @@ func coqTree(n *idr.Node) string {
 type corpusCase struct {
 	Kind   string `json:"kind"`
 	Text   string `json:"text"`
+	Schema string `json:"schema,omitempty"`
 	Expect string `json:"expect"`
 	Note   string `json:"note"`
 }
@@ -103,8 +104,13 @@ func main() {
 		}
 		var rp struct {
 			Case struct {
-				Kind string `json:"kind"`
-				Text string `json:"text"`
+				Kind     string   `json:"kind"`
+				Text     string   `json:"text"`
+				Schema   string   `json:"schema"`
+				Docs     []string `json:"docs"`
+				XPath    string   `json:"xpath"`
+				Schedule []int    `json:"schedule"`
+				Release  []bool   `json:"release"`
 			} `json:"case"`
 		}
 		if err := json.Unmarshal(b, &rp); err != nil || rp.Case.Kind == "" {
@@ -122,7 +128,16 @@ func main() {
 				}
 			}
 		}
-		failed := runText(sum, cw, rp.Case.Kind, rp.Case.Text, true)
+		var failed bool
+		switch rp.Case.Kind {
+		case "xml-interleave":
+			failed = runInterleave(sum, ilCase{Kind: rp.Case.Kind, Docs: rp.Case.Docs, XPath: rp.Case.XPath,
+				Schedule: rp.Case.Schedule, Release: rp.Case.Release}, true)
+		case "json-seq":
+			failed = runJSONSeq(sum, rp.Case.Text, rp.Case.Schema, true)
+		default:
+			failed = runText(sum, cw, rp.Case.Kind, rp.Case.Text, true)
+		}
 		fmt.Println("replay: property oracle on the implementation failed =", failed)
 		for _, f := range sum.Failures {
 			fmt.Println(" ", f.What)
@@ -153,12 +168,17 @@ func main() {
 			// the model is compared with the implementation, the property oracle is not evaluated
 			skipOracle = cc.Expect == "hypothesis"
 			strictPrefix = cc.Expect == "known-finding"
-			failed := runText(sum, cw, cc.Kind, cc.Text, false)
+			var failed bool
+			if cc.Kind == "json-seq" {
+				failed = runJSONSeq(sum, cc.Text, cc.Schema, false)
+			} else {
+				failed = runText(sum, cw, cc.Kind, cc.Text, false)
+			}
 			skipOracle, strictPrefix = false, false
 			if cc.Expect == "known-finding" {
 				if failed {
 					fmt.Printf("corpus %s: still fails (known finding), key=%s\n", filepath.Base(f),
-						vh.KeyOf(map[string]string{"kind": cc.Kind, "text": cc.Text}))
+						vh.KeyOf(textCase{Kind: cc.Kind, Text: cc.Text, Schema: cc.Schema}))
 				} else {
 					fmt.Printf("corpus %s: no longer fails - the known finding seems repaired; update KNOWN_FINDINGS.txt and the guard\n", filepath.Base(f))
 				}
@@ -170,8 +190,15 @@ func main() {
 	boundaryDocs(sum, cw)
 	bigDocs(r, sum, cw)
 	bigXMLDocs(r, sum, cw)
+	genInterleave(r, sum, true)
+	for i, k := 0, o.Count(150, 3000); i < k; i++ {
+		genInterleave(r, sum, false)
+	}
+	for i, k := 0, o.Count(120, 2400); i < k; i++ {
+		genJSONSeq(r, sum)
+	}
 
-	total := o.Count(3000, 60000)
+	total := o.Count(2600, 52000)
 	for c := 0; c < total; c++ {
 		if c%2 == 0 {
 			genJSONCase(r, sum, cw)
